@@ -20,7 +20,7 @@ package eval
 //@
 //@ # ---- C17 (colour symmetry), helper level: every loop-free helper computes for a position what it
 //@ # ---- computes for the mirror image (ranks flipped, colours and side to move exchanged)
-//@ import geom.smt2
+//@ import geom.smt2 rules.smt2
 //@ define mirrored(b1, b2) = all(i, 0, 6, b2.Pieces[i] == mirrorBB(b1.Pieces[i])) && b2.Colors[0] == mirrorBB(b1.Colors[1]) && b2.Colors[1] == mirrorBB(b1.Colors[0]) && b2.STM == b1.STM ^ 1 && b2.FiftyCnt == b1.FiftyCnt && b1.STM <= 1
 //@
 //@ lemma knbvkSymmetric(b1 *Board, b2 *Board)
@@ -51,3 +51,21 @@ package eval
 //@   concl bishopWalk(uint8(s ^ 56), mirrorBB(occ)) == mirrorBB(bishopWalk(uint8(s), occ))
 //@   concl kingSet(sqbit(uint8(s ^ 56))) == mirrorBB(kingSet(sqbit(uint8(s))))
 //@   concl knightSet(sqbit(uint8(s ^ 56))) == mirrorBB(knightSet(sqbit(uint8(s))))
+//@
+//@ # ---- C17 (colour symmetry), structure level: the pawn-structure sets computed for the mirror image
+//@ # ---- are the mirror images of the sets computed for the original, colours exchanged (both real
+//@ # ---- bodies executed; the two-iteration colour loop is unrolled)
+//@ func (*pieceWise).calcPawnStructure
+//@   loop 1: unroll 2
+//@
+//@ scenario pawnStructureMirror(b1 *Board, b2 *Board, pw1 *pieceWise, pw2 *pieceWise)
+//@   props C17
+//@   requires mirrored(b1, b2)
+//@   do inline pw1.calcPawnStructure(b1)
+//@   do inline pw2.calcPawnStructure(b2)
+//@   ensures [holes]    all(c, 0, 1, pw2.holes[c] == mirrorBB(pw1.holes[c^1]))
+//@   ensures [passers]  all(c, 0, 1, pw2.passers[c] == mirrorBB(pw1.passers[c^1]))
+//@   ensures [doubled]  all(c, 0, 1, pw2.doubledPawns[c] == mirrorBB(pw1.doubledPawns[c^1]))
+//@   ensures [isolated] all(c, 0, 1, pw2.isolatedPawns[c] == mirrorBB(pw1.isolatedPawns[c^1]))
+//@   ensures [attacks]  all(c, 0, 1, pw2.attacks[c][0] == mirrorBB(pw1.attacks[c^1][0]))
+//@
